@@ -126,6 +126,16 @@ CLAIMED['C04'] = dict(
     design_ref='3/C04',
     note=TRUST + ' The 4-step split/merge protocol is not modelled implementation-shaped; the specification states the reference semantics.')
 
+CLAIMED['C05'] = dict(
+    text=(_LINEN + 'C05: child classes may be wrapped in nn.jit / nn.remat / identity nn.map_variables (op field lift): the specification '
+          'adds the naming of transformed classes (JitX_i, CheckpointX_i, Map_variablesX_i with their own counters) and the forking of every '
+          'rng stream at each call of a jitted child (key identities relative to the forked key); everything else must be exactly the plain '
+          'semantics. Replay is three-way: specification, lifted real run (transformed classes created once so trace caches persist across '
+          'behaviours and repeated calls), plain real run of the same program; plus whole-body nn.cond / nn.switch wraps at apply time. '
+          'Not exercised: method-decorator forms, nn.while_loop, non-default variables/rngs lifting filters.'),
+    technique='TLA+ state machine with lifted children + TLC; spec->code replay with the plain program as second oracle',
+    design_ref='3/C05')
+
 NOT_YET = 'check not built yet in this round (planned, see DESIGN.md section 3); not claimed until its specification is bound to the code'
 ALL = ['C%02d' % i for i in range(1, 21)]
 
